@@ -867,6 +867,8 @@ fn handle_next(
 pub fn triangulate_polygon_set(
     poly_set: Vec<Vec<impl Into<Pt>>>,
 ) -> Result<Vec<Triag>, TriangulationError> {
+    #[cfg(cavint_verif)]
+    VERIF_ACTIVE_TRACE.with(|t| t.borrow_mut().clear());
     let mut discovered_points: HashSet<Pt> = HashSet::new();
 
     let mut valid_pt = |pt: Pt| {
@@ -926,8 +928,17 @@ pub fn triangulate_polygon_set(
         if y_struct.ordered_points.is_empty() {
             break;
         } else {
-            handle_next(&mut y_struct, &mut triag_list)?
+            handle_next(&mut y_struct, &mut triag_list)?;
+            #[cfg(cavint_verif)]
+            VERIF_ACTIVE_TRACE.with(|t| t.borrow_mut().push(y_struct.active_edges.len()));
         }
     }
     Ok(triag_list)
+}
+
+#[cfg(cavint_verif)]
+thread_local! {
+    /// Verification hook (compiled only with `--cfg cavint_verif`): the number of active edges after
+    /// every successfully handled event of the last `triangulate_polygon_set` call on this thread.
+    pub static VERIF_ACTIVE_TRACE: RefCell<Vec<usize>> = RefCell::new(Vec::new());
 }
